@@ -3,6 +3,8 @@ import Mathlib.Tactic.Ring
 import Mathlib.Tactic.FieldSimp
 import Mathlib.Tactic.Linarith
 /-! Helper lemmas for C15 (exact rational coordinate / unit arithmetic). -/
+set_option linter.unusedSimpArgs false
+
 namespace Navis.Units
 
 /-! ### basics -/
